@@ -24,7 +24,7 @@ func encryptorTarget(name string, pk bool) *Target {
 	}
 	kinds := []Kind{ptK("pt", 0, false), ptK("pt/level+meta", -1, true)}
 	t := &Target{
-		Name: name, Envs: []string{"rlwe", "rlwe-coef", "bgv", "ckks", "bgv-1p"}, Randomized: true,
+		Name: name, Envs: []string{"rlwe", "rlwe-coef", "bgv", "ckks", "bgv-1p", "ckks-ci"}, Randomized: true,
 		Type: reflect.TypeOf(&rlwe.Encryptor{}),
 		New: func(e *Env) interface{} {
 			if pk {
@@ -78,7 +78,7 @@ func decryptorTarget() *Target {
 	type D = *rlwe.Decryptor
 	kinds := []Kind{ctKind("ct1", 1, 0, nil), ctKind("ct2/level+meta", 2, -1, func(e *Env, ct *rlwe.Ciphertext) { e.DirtyMeta(ct.MetaData) }), ctKind("ct0", 0, 0, nil)}
 	t := &Target{
-		Name: "rlwe.Decryptor", Envs: []string{"rlwe", "rlwe-coef", "bgv", "ckks"},
+		Name: "rlwe.Decryptor", Envs: []string{"rlwe", "rlwe-coef", "bgv", "ckks", "ckks-ci"},
 		Type:      reflect.TypeOf(&rlwe.Decryptor{}),
 		New:       func(e *Env) interface{} { return rlwe.NewDecryptor(e.Params(), e.SK) },
 		Shared:    func(e *Env) []interface{} { return []interface{}{e.SK} },
@@ -113,7 +113,7 @@ func keyGeneratorTarget() *Target {
 		Type: reflect.TypeOf(&rlwe.KeyGenerator{}),
 		New:  func(e *Env) interface{} { return rlwe.NewKeyGenerator(e.RLWE) },
 		NotTabled: map[string]string{
-			"GenEvaluationKeysForRingSwapNew": "needs a conjugate-invariant companion parameter set (not in the tiny universe of this check)",
+			"GenEvaluationKeysForRingSwapNew": "tabled under target rlwe.KeyGenerator[ring-swap] (needs a conjugate-invariant companion parameter set)",
 			"GetRLWEParameters":               "promoted accessor", "ShallowCopy": "promoted copy constructor (C10)", "WithKey": "promoted copy constructor (C10)", "WithPRNG": "promoted copy constructor (C10)",
 			"Encrypt": "promoted from *rlwe.Encryptor (own target)", "EncryptNew": "promoted from *rlwe.Encryptor (own target)",
 			"EncryptZero": "promoted from *rlwe.Encryptor (own target)", "EncryptZeroNew": "promoted from *rlwe.Encryptor (own target)",
@@ -226,6 +226,26 @@ func keyGeneratorTarget() *Target {
 			}},
 	}
 	return t
+}
+
+// ringSwapKeyGenTarget: KeyGenerator of the standard ring Z[X]/(X^2N+1) generating the keys that switch
+// to / from the conjugate-invariant ring of the "ckks-ci" environment.
+func ringSwapKeyGenTarget() *Target {
+	type K = *rlwe.KeyGenerator
+	return &Target{
+		Name: "rlwe.KeyGenerator[ring-swap]", Envs: []string{"ckks-ci"}, Randomized: true,
+		New:       func(e *Env) interface{} { return rlwe.NewKeyGenerator(e.Standard().Params) },
+		NotTabled: map[string]string{},
+		Rows: []Row{{Method: "GenEvaluationKeysForRingSwapNew", Func: true,
+			Doc: "generates the necessary evaluation keys to switch from a standard ring to a conjugate invariant ring and vice-versa (returns two new keys)",
+			Kinds: []Kind{{Name: "skStd,skCI", Class: "sk", Names: []string{"skStd", "skConjugateInvariant"}, Make: func(e *Env, g *Gen) []interface{} {
+				return []interface{}{e.Standard().SK.CopyNew(), e.SK.CopyNew()}
+			}}},
+			Call: func(rcv interface{}, in []interface{}, o interface{}) (interface{}, error) {
+				a, b := rcv.(K).GenEvaluationKeysForRingSwapNew(in[0].(*rlwe.SecretKey), in[1].(*rlwe.SecretKey))
+				return []interface{}{a, b}, nil
+			}}},
+	}
 }
 
 func onlyExact(dDeg, dLvl int, x interface{}) interface{} {
